@@ -51,7 +51,13 @@ this prelude, on every run. What is *assumed* about Go here (the translator's se
   key (`mapGet` / `mapSet` / `mapDel`), `range` over it takes the visiting order as a parameter (any list of keys; a key
   absent at its turn is skipped, as Go skips entries deleted during the iteration; entries *added* during an iteration
   are out of scope — the translated loops add none); a `regions` entry makes the first `range` statement of a function
-  a definition of its own, its free variables its parameters.
+  a definition of its own, its free variables its parameters;
+* a callback (a named function type with one parameter and no result) is a number, a call through it appends to the ghost
+  field `cblog` of the struct listed under `callLog` (what the callback itself does — re-entering the library included —
+  is outside); a method that returns a parameterless function literal returns the tuple of the variables the literal
+  captures, and the literal's body is a definition of its own over the receiver and that tuple (closure conversion: a
+  `regions` entry of kind `retlit`); `sync.Mutex` / `RWMutex` calls are no-ops (each translated function is one critical
+  section); in a map of maps the inner maps are reachable through the outer map only (`mapInner`, `mapDelIn`).
 -/
 namespace GoSSE.GoRT
 open GoSSE
@@ -237,6 +243,19 @@ deriving DecidableEq, Repr
 def mapGet {κ ν : Type} [BEq κ] (m : List (κ × ν)) (k : κ) : Option ν := (m.find? fun e => e.1 == k).map (·.2)
 def mapDel {κ ν : Type} [BEq κ] (m : List (κ × ν)) (k : κ) : List (κ × ν) := m.filter fun e => !(e.1 == k)
 def mapSet {κ ν : Type} [BEq κ] (m : List (κ × ν)) (k : κ) (v : ν) : List (κ × ν) := m.map fun e => if e.1 == k then (k, v) else e
+/-- `m[k] = v`: replaces the entry of `k`, or adds one (at the end: where is immaterial, the order of a range is a parameter) -/
+def mapPut {κ ν : Type} [BEq κ] (m : List (κ × ν)) (k : κ) (v : ν) : List (κ × ν) :=
+  if (mapGet m k).isSome then mapSet m k v else m ++ [(k, v)]
+/-- the inner map `m[k]` for a write `m[k][i] = v`: writing to an entry of a nil map (no `k`) panics -/
+def mapInner {κ ι ν : Type} [BEq κ] (m : List (κ × List (ι × ν))) (k : κ) : GoM (List (ι × ν)) :=
+  match mapGet m k with
+  | some inner => pure inner
+  | none => throw (.panic "assignment to entry in nil map")
+/-- `delete(m[k], i)`: the inner map loses `i`; a nil inner map (no `k`) is left alone -/
+def mapDelIn {κ ι ν : Type} [BEq κ] [BEq ι] (m : List (κ × List (ι × ν))) (k : κ) (i : ι) : List (κ × List (ι × ν)) :=
+  match mapGet m k with
+  | some inner => mapSet m k (mapDel inner i)
+  | none => m
 
 /-- an `http.ResponseWriter` of whatever dynamic type: an identity the translated code only hands on -/
 abbrev HttpRW := Nat
